@@ -73,6 +73,17 @@ pub fn run(n: usize, rng: &mut Rng, rep: &mut Report) {
         if c < 0x100000 && rng.chance(1, 4) { refs.push(format!("&#{:07};", c)); refs.push(format!("&#x{:06X};", c)); }
     }
     for c in PUNCT.chars() { refs.push(format!("\\{}", c)); }
+    // concatenations whose decoded text looks like another escape / reference: decoding must happen exactly once
+    let lead = ["\\\\", "&amp;", "&#38;", "&#x26;", "&#92;", "&bsol;", "\\&"];
+    let tail = ["*", "lt;", "#35;", "#x41;", "amp;", "\\*", "&lt;", "quot;", "\\", "[", "#0;"];
+    for l in lead.iter() { for t in tail.iter() { refs.push(format!("x{}{}y", l, t)); } }
+    for _ in 0..(n / 10).max(60) {
+        let k = rng.range(2, 4);
+        let mut s = String::from("p");
+        for _ in 0..k { s.push_str(*rng.pick(&["\\\\", "&amp;", "&#38;", "\\&", "&#92;", "lt;", "#35;", "amp;", "*", "\\*", "&quot;", "q", "&#x5c;", ";"])); }
+        s.push('z');
+        refs.push(s);
+    }
     for r in refs {
         let valid_numeric_or_named_or_escape = true;
         let _ = valid_numeric_or_named_or_escape;
